@@ -29,14 +29,41 @@ def workers() -> int:
         return 8
 
 
-def pmap(fn, items, nworkers=None, chunksize=1):
+def pmap(fn, items, nworkers=None, chunksize=1, budget_s=None, placeholder=None):
+    """Parallel map that cannot hang: every item is submitted separately; the whole map has a wall
+    budget, after which the remaining items are returned as {'status': 'timeout'} and the pool is
+    terminated (a crashed or stuck worker therefore costs items, never the run)."""
     items = list(items)
     n = nworkers or workers()
     if n <= 1 or len(items) <= 1:
         return [fn(i) for i in items]
+    if budget_s is None:
+        budget_s = float(os.environ.get("VERIF_MAP_BUDGET", "2400" if os.environ.get("VERIF_TIER") != "thorough" else "14400"))
     ctx = mp.get_context("fork")
-    with ctx.Pool(min(n, len(items)), maxtasksperchild=40) as pool:
-        return pool.map(fn, items, chunksize)
+    pool = ctx.Pool(min(n, len(items)), maxtasksperchild=25)
+    t_end = time.time() + budget_s
+    out = []
+    try:
+        asyncs = [pool.apply_async(fn, (it,)) for it in items]
+        for it, a in zip(items, asyncs):
+            try:
+                out.append(a.get(timeout=max(1.0, t_end - time.time())))
+            except mp.TimeoutError:
+                out.append((placeholder or _placeholder)(it, "timeout", "parallel map budget exhausted (stuck or slow worker)"))
+            except Exception as e:  # worker raised
+                out.append((placeholder or _placeholder)(it, "harness_error", f"{type(e).__name__}: {e}"))
+    finally:
+        pool.terminate()
+        pool.join()
+    return out
+
+
+def _placeholder(item, status, detail):
+    name = None
+    spec = item[1] if isinstance(item, tuple) and len(item) == 2 else item
+    if isinstance(spec, dict):
+        name = spec.get("name")
+    return {"name": name, "status": status, "detail": detail, "problems": [], "events": [], "paths": 0, "strings": 0, "outputs": 0}
 
 
 def load_known() -> dict:
